@@ -58,7 +58,7 @@ const defectEvery = 80
 const valuesPerCase = 3
 
 func (check) Rule() string {
-	return "per case one struct type and 3 values of it (thorough: 4 consecutive cases share the type, so the runtime's permanent reflect.StructOf cache stays small): a reflect.StructOf struct of 1-6 fields, depth <= 3, over bool, all int/uint/float kinds and uintptr, string, time.Duration, *regexp.Regexp and regexp.Regexp by value, pointers and chains of 2-4 pointers (to structs too; as fields, elements and map values; the extra levels do not use up depth), slices, arrays [1..3]T, map[string]T, interface{}, nested structs by value/pointer/in collections, hand-written named types (Level string, Count int32, Ratio float64, Flag bool, Octets []uint8, Labels map[string]string, structs Endpoint/Hidden/Mixed/Opaque/Wrapped with tags, embedded and unexported fields); tags: none, rename (one in four to an unusual name, unique at its level: \"-\", \"--\", \"_\", \"*\", punctuation, blanks, \"${a}\", upper case, Cyrillic, the option words inline/ignore/squash/merge/replace/append as names), dotted (shared parents, prefix-free, unusual leaf names too), ignore (also on chan/func/map[int]/complex fields), inline/squash on struct fields (own names disjoint from the siblings'; one in five through a pointer or two, nil or not), inline map - or pointer to map - as the only transported field, one slice or array tagged inline per namespace, two pointer fields renamed to the same name (one of them always nil), merge-option tags, foreign tag keys; one namespace spelled by 2-3 fields of one struct at any nesting level (about every 11th field starts such a group: struct fields by value or pointer with the same renamed or lower-cased name, the same wrapped in an inline struct, dotted names leading into the namespace - also one that is itself a struct -, [L]struct fields of one length plus dotted names through an index; the spellings come in random order, define disjoint settings and share 0-2 sub-namespaces that are spelled the same way again, up to 3 levels); values: zero, extreme and random numbers, NaN/Inf/-0, durations incl. Min/MaxInt64, regexps, strings with $ . , braces, nil/empty/filled collections, nil pointers and chains ending in nil outside collections. Each value enters as NewFrom(v), NewFrom(&v) or New().Merge(v) and is round-tripped with PathSep(\".\") and, if the type has no dotted tag name, without it; the zero value of every type is round-tripped too. Every 80th type deliberately contains one legal shape with a known or former defect (in turn: inline map next to named fields; non-nil *[N]T; *map as list/map element; map keyed by a named string type; a hand-written named pointer type NPInt *int, NPEndpoint *Endpoint, NPHidden *Hidden, NPList *[]string, NPMap *map[string]int, NPBytes **uint8 as field, behind a pointer, as element or map value - Unpack into those runs under an allocation bound). The same named pointer types are ordinary leaf types too (about every 50th type drawn, half of them pointing to a struct), and every fifth pointer type drawn points - through one to three levels - to one of them; those are unpacked without the bound. One in five pointer spellings of a shared namespace is nil. Map keys contain the separator one time in eight if the type has no dotted name (the value is then round-tripped without PathSep only). Each case also hands one small struct holding a kind without configuration form (complex64/128, chan, func; as field, behind a pointer, in a slice, array, map, nested struct or interface) to NewFrom and, if accepted, to Unpack: no panic, nothing else claimed. Non-trivial = the type transports >= 3 fields (nested ones counted) or >= 1 container; distinct = distinct (type, value) text."
+	return "per case one struct type and 3 values of it (thorough: 4 consecutive cases share the type, so the runtime's permanent reflect.StructOf cache stays small): a reflect.StructOf struct of 1-6 fields, depth <= 3, over bool, all int/uint/float kinds and uintptr, string, time.Duration, *regexp.Regexp and regexp.Regexp by value, pointers and chains of 2-4 pointers (to structs too; as fields, elements and map values; the extra levels do not use up depth), slices, arrays [1..3]T, map[string]T, interface{}, nested structs by value/pointer/in collections, hand-written named types (Level string, Count int32, Ratio float64, Flag bool, Octets []uint8, Labels map[string]string, structs Endpoint/Hidden/Mixed/Opaque/Wrapped with tags, embedded and unexported fields); tags: none, rename (one in four to an unusual name, unique at its level: \"-\", \"--\", \"_\", \"*\", punctuation, blanks, \"${a}\", upper case, Cyrillic, the option words inline/ignore/squash/merge/replace/append as names), dotted (shared parents, prefix-free, unusual leaf names too), ignore (also on chan/func/map[int]/complex fields), inline/squash on struct fields (own names disjoint from the siblings'; one in five through a pointer or two, nil or not), inline map - or pointer to map - as the only transported field, one slice or array tagged inline per namespace, two pointer fields renamed to the same name (one of them always nil), merge-option tags, foreign tag keys; one namespace spelled by 2-3 fields of one struct at any nesting level (about every 11th field starts such a group: struct fields by value or pointer with the same renamed or lower-cased name, the same wrapped in an inline struct, dotted names leading into the namespace - also one that is itself a struct -, [L]struct fields of one length plus dotted names through an index; the spellings come in random order, define disjoint settings and share 0-2 sub-namespaces that are spelled the same way again, up to 3 levels); values: zero, extreme and random numbers, NaN/Inf/-0, durations incl. Min/MaxInt64, regexps, strings with $ . , braces, nil/empty/filled collections, nil pointers and chains ending in nil outside collections. Each value enters as NewFrom(v), NewFrom(&v) or New().Merge(v) and is round-tripped with PathSep(\".\") and, if the type has no dotted tag name, without it; the zero value of every type is round-tripped too. Every 80th type deliberately contains one legal shape with a known or former defect (in turn: inline map next to named fields; non-nil *[N]T; *map as list/map element; map keyed by a named string type; a hand-written named pointer type NPInt *int, NPEndpoint *Endpoint, NPHidden *Hidden, NPList *[]string, NPMap *map[string]int, NPBytes **uint8 as field, behind a pointer, as element or map value - Unpack into those runs under an allocation bound). The same named pointer types are ordinary leaf types too (about every 50th type drawn, half of them pointing to a struct), and every fifth pointer type drawn points - through one to three levels - to one of them; those are unpacked without the bound. One in five pointer spellings of a shared namespace is nil. Map keys contain the separator one time in eight if the type has no dotted name (the value is then round-tripped without PathSep only). Each case also hands one small struct holding a kind without configuration form (complex64/128, chan, func; as field, behind a pointer, in a slice, array, map, nested struct or interface) to NewFrom and, if accepted, to Unpack: no panic, nothing else claimed. Sixth wave: every field of a generated type carries a second tag key (alt) with the same options and another name (injective, segment by segment), the hand-written struct types too; per value one trip in two runs under StructTag(\"alt\") - one type in three is first unpacked under alt, then under config, then under alt again -, and half of the plain trips give Merge one of AppendValues / PrependValues / ReplaceValues / ReplaceArrValues (Unpack gets it too one time in two). Each case also round-trips one value (2-4 named steps deep) of one of 8 hand-written recursive types (a struct inlined through a pointer that reaches, through a named pointer / slice / map value / dotted name / array, a type inlining it again; by value; two inline pointers in a row; plain recursion; a type inlining a pointer to itself). Non-trivial = the type transports >= 3 fields (nested ones counted) or >= 1 container; distinct = distinct (type, value) text."
 }
 
 func (check) Assumptions() []string {
@@ -72,6 +72,9 @@ func (check) Assumptions() []string {
 		"the untagged field name is the lower-cased Go field name; the names of the intermediate Config are checked against the names derived from type and value, level by level through structs and lists of structs, not below maps and interfaces (this is what makes a merge-side-only and an unpack-side-only naming rule distinguishable); a name whose only definition is a nil pointer or nil interface may be present or absent",
 		"several fields spelling one namespace: only with disjoint settings (a setting defined twice is a duplicate key, C09), as a nil pointer only if the struct holds no fixed-size array (Unpack allocates the pointer for the other spellings' settings - reported as nil-pointer-spelling-comes-back-allocated - and would fail on the array), never as a map or an inline map (it would receive the other spellings' settings: the open inline-map question), lists only as arrays of one length (a slice would come back with the longest length); signatures of deviations below such a namespace carry shared-ns / shared-namespace",
 		"VarExp off: '$' in strings is data",
+		"one merge into an empty config is the identity under every global merge policy (there is nothing to append to, prepend to or replace), so the comparison is the same; a deviation the same pair does not show without the policy is signed only-with-merge-policy:<policy>[+on-unpack]:<sig>",
+		"the tag key is the caller's choice (StructTag): the oracle reads the key the library is told to read; a deviation that a structurally identical type built afresh does not show is signed depends-on-earlier-unpack-of-the-type-under-another-struct-tag:<sig>, one the plain trip does not show only-under-StructTag:<history>:<sig>; the recursive hand-written types have one tag key only",
+		"a struct type that inlines a pointer to itself: only values with that pointer nil (anything else names one setting twice); an inlined pointer that was set, held settings and comes back nil is one finding (inline-pointer-comes-back-nil, with :type-inlined-again-below-a-named-field if its struct type is already inlined through a pointer on the path from the root)",
 		"an empty map or list held by an interface{} map entry comes back as an absent entry: equal, by nil == empty and CanonIfc's absent == nil",
 		"a failure is attributed to a known shape only by a differential re-run: the same Config unpacks into the type with *[N]T replaced by *[]T (resp. element *map by map, map[Level]T by map[string]T), or the smallest struct showing a shape of the type (uintptr field, regexp.Regexp by value passed by value, inlined list, nil / non-nil inlined pointer, []**struct) fails in the same step in the same way (panic or error)",
 		"an Unpack that allocates more than 192 MB without returning can not be stopped; the worker is given up with a 'fatal error:' line, which the supervisor files under the case as fatal:unpack-into-named-pointer-type-allocates-without-bound",
@@ -88,25 +91,26 @@ type Flag bool
 type Octets []uint8
 type Labels map[string]string
 
+// (the alt key carries a second set of names for the same fields, see addAlt)
 type Endpoint struct {
-	Host string
-	Port uint16 `config:"port"`
-	TLS  *bool  `config:"tls"`
-	Tags []string
+	Host string   `alt:"zhost"`
+	Port uint16   `config:"port" alt:"zport"`
+	TLS  *bool    `config:"tls" alt:"ztls"`
+	Tags []string `alt:"ztags"`
 }
 
 type Hidden struct {
-	Pub  int64
+	Pub  int64 `alt:"zpub"`
 	priv string
-	Name string `config:"nm"`
+	Name string `config:"nm" alt:"znm"`
 	note *int
-	Skip string `config:",ignore"`
+	Skip string `config:",ignore" alt:",ignore"`
 }
 
 type Mixed struct {
 	count  int
-	Inner  Endpoint `config:"ep"`
-	Vals   map[string]Count
+	Inner  Endpoint         `config:"ep" alt:"zep"`
+	Vals   map[string]Count `alt:"zvals"`
 	secret []byte
 }
 
@@ -116,10 +120,10 @@ type Opaque struct {
 
 // Wrapped has embedded fields: one inlined, one under its type name, one pointer.
 type Wrapped struct {
-	Endpoint `config:",inline"`
-	Hidden
-	*Level
-	Extra int `config:"extra"`
+	Endpoint `config:",inline" alt:",inline"`
+	Hidden   `alt:"zhidden"`
+	*Level   `alt:"zlevel"`
+	Extra    int `config:"extra" alt:"zextra"`
 }
 
 var (
@@ -165,8 +169,15 @@ type tagInfo struct {
 	inline, ignore bool
 }
 
+// tagKey is the struct tag key the oracle reads: "config", and altKey for the
+// duration of a round trip under StructTag(altKey) (cases run one after the
+// other in a worker process; the key is put back when the trip returns).
+var tagKey = "config"
+
+const altKey = "alt"
+
 func parseTag(tag reflect.StructTag) tagInfo {
-	parts := strings.Split(tag.Get("config"), ",")
+	parts := strings.Split(tag.Get(tagKey), ",")
 	ti := tagInfo{name: parts[0]}
 	for _, o := range parts[1:] {
 		switch o {
@@ -1492,13 +1503,15 @@ func clip(s string, n int) string {
 type deviation struct{ sig, detail string }
 
 type comparer struct {
-	sep      bool
-	devs     []deviation
-	inShared int // > 0 while comparing below a namespace spelled by several fields
-	sameName int // > 0 while comparing a field whose name another field of the struct has too
-	oddName  int // > 0 while comparing a field renamed to punctuation or to an option word
-	holders  int
-	settings int // leaf comparisons below such a namespace
+	sep        bool
+	devs       []deviation
+	inShared   int // > 0 while comparing below a namespace spelled by several fields
+	sameName   int // > 0 while comparing a field whose name another field of the struct has too
+	oddName    int // > 0 while comparing a field renamed to punctuation or to an option word
+	holders    int
+	settings   int            // leaf comparisons below such a namespace
+	inlining   []reflect.Type // struct types inlined through a pointer, outermost first
+	namesDepth int
 }
 
 // at names the place of a value for the signature.
@@ -1718,7 +1731,13 @@ func (c *comparer) names(v reflect.Value, skip int, may, must map[string]bool) {
 		switch {
 		case ti.ignore:
 		case ti.inline && chaseT(f.Type).Kind() == reflect.Struct:
-			c.names(inlined(v.Field(i)), -1, may, must)
+			// (a nil pointer stands for the zero value, whose own inlined
+			// pointers are nil again: a type inlining itself ends here)
+			if c.namesDepth < 8 {
+				c.namesDepth++
+				c.names(inlined(v.Field(i)), -1, may, must)
+				c.namesDepth--
+			}
 		case ti.inline && chaseT(f.Type).Kind() == reflect.Map:
 			for _, k := range inlined(v.Field(i)).MapKeys() {
 				may[k.String()] = true
@@ -1771,7 +1790,36 @@ func (c *comparer) structEq(a, b reflect.Value, path string, outer map[string]bo
 				c.add("ignored-field-written", "%s: field tagged ignore is %s in the result (source %s)", fp, clip(show(b.Field(i)), 200), clip(show(a.Field(i)), 200))
 			}
 		case ti.inline && chaseT(f.Type).Kind() == reflect.Struct:
+			// the struct types inlined through a pointer on the way here (named
+			// fields crossed or not)
+			if f.Type.Kind() == reflect.Ptr && nilChain(a.Field(i)) && nilChain(b.Field(i)) {
+				continue // nil on both sides (a type that inlines itself ends so)
+			}
+			base, depth, before := chaseT(f.Type), len(c.inlining), len(c.devs)
+			again := false
+			for _, have := range c.inlining {
+				again = again || have == base
+			}
+			if f.Type.Kind() == reflect.Ptr {
+				c.inlining = append(c.inlining, base)
+			}
 			c.structEq(inlined(a.Field(i)), inlined(b.Field(i)), fp, sib(), node)
+			c.inlining = c.inlining[:depth]
+			lost := false // something other than the nil-ness of a pointer to a nil pointer (a null in the Config)
+			for _, d := range c.devs[before:] {
+				lost = lost || d.sig != "pointer-to-nil-pointer-comes-back-nil"
+			}
+			if f.Type.Kind() == reflect.Ptr && lost && !nilChain(a.Field(i)) && nilChain(b.Field(i)) {
+				// the inlined pointer was set and held something, and came back
+				// nil: one finding, not one per setting below it
+				n := len(c.devs) - before
+				c.devs = c.devs[:before]
+				sig := "inline-pointer-comes-back-nil"
+				if again {
+					sig = "inline-pointer-comes-back-nil:type-inlined-again-below-a-named-field"
+				}
+				c.add(sig, "%s: the inlined pointer %s came back nil (%d settings below it lost); struct types inlined through pointers on the way: %v", fp, clip(show(a.Field(i)), 300), n, c.inlining)
+			}
 		case ti.inline && chaseT(f.Type).Kind() == reflect.Map:
 			c.mapEq(inlined(a.Field(i)), inlined(b.Field(i)), fp, "inline", sib())
 		case ti.inline:
@@ -2233,7 +2281,8 @@ func (check) Run(seed int64, tier string, idx int, verbose bool) harness.Result 
 	if ti%defectEvery == defectEvery-1 {
 		tg.defect = 1 + (ti/defectEvery)%5
 	}
-	T := tg.topType()
+	// every field gets a second set of names under another tag key
+	T := addAlt(tg.topType())
 	r := rand.New(rand.NewSource(harness.Mix(seed, "C06", idx)))
 	ts := T.String()
 	for f := range tg.forms {
@@ -2279,6 +2328,7 @@ func (check) Run(seed int64, tier string, idx int, verbose bool) harness.Result 
 	var nf, nc int
 	typeStats(T, &nf, &nc, 0)
 
+	defaultTrips, altTrips := 0, 0
 	for k := 0; k < valuesPerCase; k++ {
 		vg := &vgen{r: r, res: res, defect: tg.defect, dotKeys: !tg.dotted}
 		v := vg.val(T, false)
@@ -2290,12 +2340,44 @@ func (check) Run(seed int64, tier string, idx int, verbose bool) harness.Result 
 			res.Sample = map[string]interface{}{"type": clip(ts, 1500), "value": clip(vs, 1500)}
 		}
 		ok := true
-		if e := r.Intn(4); !vg.dotKey {
+		// the variants of the trip: a merge policy (the statement is about one
+		// merge into an empty config: identity under every policy), and the
+		// field names of another tag key - before or after the type has been
+		// unpacked under the default key
+		draw := func() (x variant) {
+			if r.Intn(2) == 0 {
+				x.policy = 1 + r.Intn(len(policies)-1)
+				x.onUnpack = r.Intn(2) == 0
+			}
+			x.otherBefore = altTrips > 0
+			return x
+		}
+		altTrip := func() {
+			x := variant{alt: true, history: "type-not-unpacked-before"}
+			if defaultTrips > 0 {
+				x.history = "after-unpack-under-the-default-tag"
+			}
+			if altTrips > 0 && defaultTrips > 0 {
+				x.history = "after-unpacks-under-both-tags"
+			}
+			x.otherBefore = defaultTrips > 0
+			altTrips++
 			// (with PathSep a map key containing the separator is a path: C05)
-			ok = roundTrip(res, T, v, true, e, "value", ts, vs, verbose)
+			variantTrip(res, T, v, !vg.dotKey, r.Intn(4), "value", ts, vs, verbose, x)
+		}
+		if k == 0 && idx%reuse(tier) == 0 && r.Intn(3) == 0 {
+			altTrip()
+		}
+		if e := r.Intn(4); !vg.dotKey {
+			ok = variantTrip(res, T, v, true, e, "value", ts, vs, verbose, draw())
+			defaultTrips++
 		}
 		if !tg.dotted {
-			ok = roundTrip(res, T, v, false, r.Intn(4), "value", ts, vs, verbose) && ok
+			ok = variantTrip(res, T, v, false, r.Intn(4), "value", ts, vs, verbose, draw()) && ok
+			defaultTrips++
+		}
+		if r.Intn(2) == 0 {
+			altTrip()
 		}
 		if ok && (nf >= 3 || nc >= 1) {
 			h := fnv.New64a()
@@ -2310,6 +2392,7 @@ func (check) Run(seed int64, tier string, idx int, verbose bool) harness.Result 
 		roundTrip(res, T, z, true, 0, "zero-value", ts, show(z), verbose)
 	}
 	noFormProbe(res, r)
+	recursiveTrip(res, r, verbose)
 	return res.Done()
 }
 
@@ -2348,11 +2431,32 @@ func shapes(res *harness.R, t reflect.Type, parent string, depth int) {
 // roundTrip runs value -> Config -> zero value of T and reports deviations.
 // It returns false if the pair did not make it through both library calls.
 func roundTrip(res *harness.R, T reflect.Type, v reflect.Value, sep bool, entry int, what, ts, vs string, verbose bool) bool {
+	return trip(res, T, v, sep, entry, what, ts, vs, verbose, variant{})
+}
+
+func trip(res *harness.R, T reflect.Type, v reflect.Value, sep bool, entry int, what, ts, vs string, verbose bool, x variant) bool {
 	var opts []ucfg.Option
 	mode := "no PathSep"
 	if sep {
 		opts = []ucfg.Option{ucfg.PathSep(".")}
 		mode = `PathSep(".")`
+	}
+	if x.alt {
+		// the oracle reads the same key as the library for this trip
+		opts = append(opts, ucfg.StructTag(altKey))
+		mode += ` StructTag("` + altKey + `")`
+		defer func(k string) { tagKey = k }(tagKey)
+		tagKey = altKey
+	}
+	// the options of the Merge step; Unpack gets the policy too one time in two
+	mopts := opts
+	if x.policy != 0 {
+		mopts = append(opts[:len(opts):len(opts)], policies[x.policy].opt)
+		mode += " Merge:" + policies[x.policy].name
+		if x.onUnpack {
+			opts = mopts
+			mode += "+Unpack"
+		}
 	}
 	res.SetAdd("mode", what+"/"+mode)
 	witness := func() string {
@@ -2370,13 +2474,13 @@ func roundTrip(res *harness.R, T reflect.Type, v reflect.Value, sep bool, entry 
 			how = "NewFrom(&value)"
 			p := reflect.New(T)
 			p.Elem().Set(v)
-			c, err = ucfg.NewFrom(p.Interface(), opts...)
+			c, err = ucfg.NewFrom(p.Interface(), mopts...)
 		case 2:
 			how = "New().Merge(value)"
 			c = ucfg.New()
-			err = c.Merge(v.Interface(), opts...)
+			err = c.Merge(v.Interface(), mopts...)
 		default:
-			c, err = ucfg.NewFrom(v.Interface(), opts...)
+			c, err = ucfg.NewFrom(v.Interface(), mopts...)
 		}
 	})
 	res.SetAdd("entry", how)
